@@ -59,7 +59,7 @@ package commitments
 //@ func (*builder).AddPart
 //@   props C16 C06
 //@   requires b != nil
-//@   modifies b.parts
+//@   modifies b.parts, b.parts[*]
 //@   ensures result == b && len(b.parts) == old(len(b.parts)) + 1
 //@   ensures b.parts[old(len(b.parts))] == part
 //@   ensures forall k in 0..old(len(b.parts)) :: b.parts[k] == old(b.parts[k])
@@ -77,5 +77,5 @@ package commitments
 //@   props C06 C16
 //@   requires forall k in 0..len(secrets) :: secrets[k] != nil
 //@   ensures [C16.parts-cap] result1 == nil ==> len(result0) <= 3
-//@   loop 0 invariant 0 <= el && len(parts) <= 3
+//@   loop 0 invariant 0 <= el && len(parts) <= 3 && fresh(parts)
 //@   loop 0 invariant [partlen] !isLenEl ==> (0 <= nextPartLen && nextPartLen <= 1048576)
